@@ -10,8 +10,8 @@
 From PyGql Require Import Lang.PrinterModel Spec.PrinterSpec Proofs.PrinterSdlRoundtrip Spec.LexSpec Proofs.PrinterValueRoundtrip.
 From PyGql Require Import Run.Driver Spec.SdlSpec Schema.SdlPrint Schema.SdlIntro Spec.SdlRoundtripSpec
      Proofs.SdlPrintProofs Proofs.SdlTextProofs Lang.Parser.
-From PyGql Require Import Proofs.SdlTextSchemaProofs Proofs.SdlDocRoundtripProofs Proofs.SdlValidInvProofs
-     Proofs.SdlDocRulesProofs Proofs.SdlTextRoundtripProofs.
+From PyGql Require Import Proofs.SdlTextSchemaProofs Proofs.SdlDescLexProofs Proofs.SdlTextDescProofs Proofs.SdlMemberDescProofs Proofs.SdlDescClassProofs
+     Proofs.SdlDocRoundtripProofs Proofs.SdlValidInvProofs Proofs.SdlDocRulesProofs Proofs.SdlTextRoundtripProofs.
 From Coq Require Import Lia.
 
 (* ---- full-strength statements (kept visible) -------------------------- *)
@@ -188,14 +188,66 @@ Qed.
 Print Assumptions C12_default_literal_plain.
 
 (* ... hence (C03_sdl_roundtrip) the parser model of C01 reads the printed
-   text back as exactly that document *)
+   text back as exactly that document.  Descriptions: the schema printer lays
+   them out itself (one-line and block form), so this part does not go through
+   print_ast: the description text -- triple quote, body, triple quote -- is one
+   block string token whose value is BlockStringValue of the body
+   (lex_description_text, composed from read_block_complete / block_body_scan
+   of C01 / C03), put in front of the definition's tokens (add_description).
+   [desc_schema] (Proofs/SdlTextDescProofs.v): descriptions on types and
+   directive definitions that satisfy [desc_ok] -- printed by the options, no
+   double quote, not ending with a backslash (open finding
+   description-trailing-backslash), source characters, read back by
+   BlockStringValue; members carry no descriptions. *)
 Theorem C12_text_parse_partial : forall intro spec o fl sc text,
-  text_schema o sc -> valid_locations sc -> po_introspection o = false ->
+  full_schema o sc -> valid_locations sc -> po_introspection o = false ->
   no_location fl = true -> allow_type_system fl = true -> all_ws (po_indent o) ->
   print_schema intro spec o sc = Ok text ->
-  parse_document fl text = Ok (doc_of sc) /\ ast_of_schema sc = Ok (doc_of sc).
-Proof. exact text_parses_to_ast. Qed.
+  parse_document fl text = Ok (doc_f o sc) /\ ast_of_schema sc = Ok (doc_f o sc).
+Proof. exact text_parses_full. Qed.
 Print Assumptions C12_text_parse_partial.
+
+(* [full_schema] (Proofs/SdlMemberDescProofs.v) extends [desc_schema] with
+   descriptions on fields, enum values and input fields (depth 1: the
+   description block is indented, a blank line separates described members);
+   arguments (of fields and of directive definitions) carry none *)
+Theorem C12_desc_schema_is_full_schema : forall o sc, desc_schema o sc -> full_schema o sc.
+Proof. exact desc_schema_full. Qed.
+Print Assumptions C12_desc_schema_is_full_schema.
+
+Theorem C12_text_schema_is_desc_schema : forall o sc, text_schema o sc -> desc_schema o sc.
+Proof. exact text_schema_desc. Qed.
+Print Assumptions C12_text_schema_is_desc_schema.
+
+(* the text of a description is one block string token *)
+Theorem C12_description_lexes : forall body rest pos,
+  noquote_body body ->
+  exists e, forall f,
+    Lexer.lex_from (S f) ((34 :: 34 :: 34 :: body ++ 34 :: 34 :: 34 :: rest)%N) pos
+    = Lexer.LT (Token.PTok Token.KBlockString (block_string_value body) pos e) :: Lexer.lex_from f rest e.
+Proof. exact lex_description_text. Qed.
+Print Assumptions C12_description_lexes.
+
+(* the two description classes of C12_description_roundtrip_partial / _block
+   are inside [desc_ok] *)
+Theorem C12_description_class_single_line : forall o desc,
+  po_descriptions o = true ->
+  forallb plain_char desc = true -> blank desc = false -> length desc < 70 ->
+  last desc 0%N <> 92%N -> Forall SourceCharacter desc ->
+  desc_ok o (Some desc).
+Proof. exact desc_ok_single_line. Qed.
+Print Assumptions C12_description_class_single_line.
+
+Theorem C12_description_class_block : forall o desc,
+  po_descriptions o = true -> desc <> [] ->
+  forallb clean_line (split_nl desc) = true ->
+  forallb (fun l => Nat.leb (length l) 120) (split_nl desc) = true ->
+  hd [] (split_nl desc) <> [] -> last (split_nl desc) [] <> [] ->
+  (2 <= length (split_nl desc) \/ 70 <= length (hd [] (split_nl desc))) ->
+  Forall SourceCharacter desc ->
+  desc_ok o (Some desc).
+Proof. exact desc_ok_block. Qed.
+Print Assumptions C12_description_class_block.
 
 (* C12_members_roundtrip at the document level, for every SDL-expressible
    schema (descriptions, defaults, directives included): if the document of
@@ -242,7 +294,7 @@ Theorem C12_members_roundtrip_guarded : forall sc d,
 Proof. exact members_roundtrip_guarded. Qed.
 Print Assumptions C12_members_roundtrip_guarded.
 
-(* C12_roundtrip through the parser model, for schemas without descriptions:
+(* C12_roundtrip through the parser model, for [full_schema] schemas:
    parse (print s) builds a schema equivalent to s.  [defaults_guard] are the
    guards that exclude the open findings: every default's literal coerces back
    (custom-scalar-numeric-string-default; C12_default_roundtrip_partial gives
@@ -251,7 +303,7 @@ Print Assumptions C12_members_roundtrip_guarded.
    input-default-self-cycle can fail).  Without default values both hold
    (C12_no_defaults_guard). *)
 Theorem C12_text_roundtrip_partial : forall intro spec o fl sc text,
-  text_schema o sc -> valid_locations sc -> schema_okb sc = true -> defaults_guard sc ->
+  full_schema o sc -> valid_locations sc -> schema_okb sc = true -> defaults_guard sc ->
   po_introspection o = false ->
   no_location fl = true -> allow_type_system fl = true -> all_ws (po_indent o) ->
   print_schema intro spec o sc = Ok text ->
@@ -259,17 +311,17 @@ Theorem C12_text_roundtrip_partial : forall intro spec o fl sc text,
                 /\ build_model (BOpts true []) d = Ok sc'
                 /\ roundtrip_equiv sc' sc = true
                 /\ declares_again sc sc'.
-Proof. exact text_roundtrip. Qed.
+Proof. exact text_roundtrip_full. Qed.
 Print Assumptions C12_text_roundtrip_partial.
 
-Theorem C12_no_defaults_guard : forall o sc, text_schema o sc -> no_defaults sc -> defaults_guard sc.
+Theorem C12_no_defaults_guard : forall sc d, ast_of_schema sc = Ok d -> no_defaults sc -> defaults_guard sc.
 Proof. exact no_defaults_guard. Qed.
 Print Assumptions C12_no_defaults_guard.
 
 (* ... and printing the rebuilt schema gives the same text (C12_roundtrip_full
-   restricted to schemas without descriptions, with the equivalence added) *)
+   restricted to [full_schema], with the equivalence added) *)
 Theorem C12_fixpoint_partial : forall intro spec o fl sc text,
-  text_schema o sc -> valid_locations sc -> schema_okb sc = true -> defaults_guard sc ->
+  full_schema o sc -> valid_locations sc -> schema_okb sc = true -> defaults_guard sc ->
   po_introspection o = false ->
   no_location fl = true -> allow_type_system fl = true -> all_ws (po_indent o) ->
   print_schema intro spec o sc = Ok text ->
@@ -277,16 +329,16 @@ Theorem C12_fixpoint_partial : forall intro spec o fl sc text,
                 /\ build_model (BOpts true []) d = Ok sc'
                 /\ roundtrip_equiv sc' sc = true
                 /\ print_schema intro spec o sc' = Ok text.
-Proof. exact text_roundtrip_fixpoint. Qed.
+Proof. exact text_roundtrip_fixpoint_full. Qed.
 Print Assumptions C12_fixpoint_partial.
 
 (* any schema that declares [sc] again (sorted, equal up to applied directives
    named like specified ones) prints like [sc] *)
 Theorem C12_fixpoint_declares_again : forall intro spec o sc sc',
-  text_schema o sc -> has_dup (map tdef_name (s_types sc)) = false -> declares_again sc sc' ->
+  full_schema o sc -> all_ws (po_indent o) -> has_dup (map tdef_name (s_types sc)) = false -> declares_again sc sc' ->
   po_introspection o = false ->
   print_schema intro spec o sc' = print_schema intro spec o sc.
-Proof. exact fixpoint_declares_again. Qed.
+Proof. exact fixpoint_declares_again_full. Qed.
 Print Assumptions C12_fixpoint_declares_again.
 
 (* the printer is a function of (schema, options): the same arguments give the
@@ -370,28 +422,32 @@ Proof. split; vm_compute; reflexivity. Qed.
    schema with an object, an interface, arguments with defaults (Int, list of
    enum, input object, String with an escape), a deprecated field and a
    deprecated enum value, applied custom directives with arguments, a union,
-   an input type with defaults and a directive definition; the conclusion is
+   an input type with defaults and a directive definition, descriptions in the
+   one-line and in the block layout on types, the directive definition, fields,
+   an enum value and an input field; the
+   conclusion is
    also checked by computation (text, document, rebuilt schema, second print) *)
 Definition tag_dir (z : Z) : directive :=
   Dir (Name (s "tag") None) [Arg (Name (s "n") None) (VInt (str_of_Z z) None) None] None.
 
 Definition plain_example : schema :=
-  Sch [TObject (s "Query") None [s "Node"]
-         [SF (s "id") (s "id") [] (RNonNull (RNamed (s "ID"))) None None [];
+  Sch [TObject (s "Query") (Some (s "The root")) [s "Node"]
+         [SF (s "id") (s "id") [] (RNonNull (RNamed (s "ID"))) (Some (s "the id")) None [];
           SF (s "e") (s "e")
              [SIV (s "x") (s "x") (RList (RNonNull (RNamed (s "In")))) None None [];
               SIV (s "n") (s "n") (RNamed (s "Int")) (Some (PInt 5)) None [tag_dir 1];
               SIV (s "es") (s "es") (RList (RNamed (s "E"))) (Some (PList [PStr (s "A"); PNone])) None [];
               SIV (s "i") (s "i") (RNamed (s "In")) (Some (PDict [(s "n", PInt 7); (s "t", PStr [104; 10; 34]%N)])) None []]
-             (RNamed (s "E")) None (Some (s "old")) [tag_dir 2]] [tag_dir 3];
+             (RNamed (s "E")) (Some [116; 119; 111; 10; 108; 105; 110; 101; 115]%N) (Some (s "old")) [tag_dir 2]] [tag_dir 3];
        TInterface (s "Node") None [SF (s "id") (s "id") [] (RNonNull (RNamed (s "ID"))) None None []] [];
-       TEnum (s "E") None [SEV (s "A") (PStr (s "A")) None (Some default_deprecation) [tag_dir 4];
+       TEnum (s "E") (Some [116; 119; 111; 10; 108; 105; 110; 101; 115; 92; 10; 10; 101; 110; 100]%N)
+             [SEV (s "A") (PStr (s "A")) (Some (s "first value")) (Some default_deprecation) [tag_dir 4];
                            SEV (s "B") (PStr (s "B")) None None []] [];
        TUnion (s "U") None [s "Query"] [];
-       TInput (s "In") None [SIV (s "n") (s "n") (RNamed (s "Int")) (Some (PInt 1)) None [];
+       TInput (s "In") None [SIV (s "n") (s "n") (RNamed (s "Int")) (Some (PInt 1)) (Some (s "how many")) [];
                              SIV (s "t") (s "t") (RNamed (s "String")) (Some (PStr (s "x"))) None []] [];
        TScalar (s "Date") None [tag_dir 5]]
-      [DD (s "tag") None [s "FIELD_DEFINITION"; s "OBJECT"; s "SCALAR"; s "ENUM_VALUE"; s "ARGUMENT_DEFINITION"; s "SCHEMA"]
+      [DD (s "tag") (Some (s "a tag, with a backslash \ inside")) [s "FIELD_DEFINITION"; s "OBJECT"; s "SCALAR"; s "ENUM_VALUE"; s "ARGUMENT_DEFINITION"; s "SCHEMA"]
           [SIV (s "n") (s "n") (RNamed (s "Int")) (Some (PInt 0)) None []]]
       (Some (s "Query")) None None [tag_dir 6].
 
@@ -414,24 +470,49 @@ Ltac dirs_ok_tac :=
   split; [vm_compute custom_dirs; repeat constructor; cbn; good_value_tac
          |first [left; reflexivity|right; reflexivity]].
 
+Ltac desc_ok_tac :=
+  first [ exact I
+        | apply desc_ok_single_line;
+          [reflexivity|vm_compute; reflexivity|vm_compute; reflexivity|vm_compute; lia|vm_compute; discriminate
+          |apply source_chars_b; vm_compute; reflexivity]
+        | apply desc_ok_block;
+          [reflexivity|discriminate|vm_compute; reflexivity|vm_compute; reflexivity|vm_compute; discriminate
+          |vm_compute; discriminate|vm_compute; lia|apply source_chars_b; vm_compute; reflexivity] ].
+
+Ltac desc_okd_tac :=
+  first [ exact I
+        | apply desc_okd_single_line;
+          [reflexivity|vm_compute; reflexivity|vm_compute; reflexivity|vm_compute; lia|vm_compute; lia
+          |vm_compute; discriminate|apply source_chars_b; vm_compute; reflexivity]
+        | apply desc_okd_block;
+          [reflexivity|discriminate|vm_compute; reflexivity|vm_compute; reflexivity|vm_compute; reflexivity
+          |vm_compute; discriminate|vm_compute; discriminate|vm_compute; lia|apply source_chars_b; vm_compute; reflexivity] ].
+
 Example C12_text_roundtrip_instance :
-  text_schema example_opts plain_example /\ valid_locations plain_example
+  full_schema example_opts plain_example /\ valid_locations plain_example
   /\ schema_okb plain_example = true /\ defaults_guard plain_example.
 Proof.
   split; [|split; [|split]].
-  - unfold text_schema, plain_schema, plain_example. cbn [s_types s_ddefs].
+  - unfold full_schema, plain_example. cbn [s_types s_ddefs].
     repeat match goal with
            | |- _ /\ _ => split
            | |- Forall _ _ => constructor
            | |- PrinterRoundtrip.valid_name _ => vname_tac
            | |- _ = None => reflexivity
            | |- dirs_ok _ _ => dirs_ok_tac
-           | |- dflt_ok _ _ => unfold dflt_ok; cbn [siv_default siv_type];
+           | |- dflt_ok _ _ => unfold dflt_ok; cbn [siv_default siv_type clear_siv];
                                first [exact I|eexists; split; [vm_compute; reflexivity|cbn; good_value_tac]]
+           | |- desc_ok _ _ => cbn [tdef_desc dd_desc]; desc_ok_tac
+           | |- desc_okd _ _ _ => cbn [sf_desc sev_desc siv_desc]; desc_okd_tac
            | |- _ <> _ => discriminate
            | |- True => exact I
            | |- wf_tref _ => cbn [wf_tref]
-           | |- plain_tdef _ _ _ => unfold plain_tdef; cbn [tdef_desc tdef_dirs tdef_name]
+           | |- full_tdef _ _ _ => unfold full_tdef; cbn [clear_tdesc]
+           | |- m_tdef _ _ _ => unfold m_tdef; cbn [tdef_desc tdef_dirs tdef_name]
+           | |- d_sf _ _ _ => unfold d_sf, clear_sf; cbn [sf_name sf_py sf_args sf_type sf_dep sf_dirs]
+           | |- d_sev _ _ => unfold d_sev, clear_sev; cbn [sev_name sev_value sev_dep sev_dirs]
+           | |- d_siv _ _ _ => unfold d_siv, clear_siv; cbn [siv_name siv_py siv_type siv_default siv_dirs]
+           | |- dt_ddef _ _ _ => unfold dt_ddef, clear_ddesc; cbn [dd_name dd_locs dd_args]
            | |- plain_sf _ _ _ => unfold plain_sf; cbn [sf_desc sf_dirs sf_name sf_type sf_args]
            | |- plain_siv _ _ _ => unfold plain_siv; cbn [siv_desc siv_dirs siv_name siv_type]
            | |- plain_sev _ _ => unfold plain_sev; cbn [sev_desc sev_dirs sev_name]
@@ -444,7 +525,7 @@ Proof.
   - unfold valid_locations, plain_example. cbn [s_ddefs dd_locs].
     repeat (first [apply Forall_nil | apply Forall_cons]); vm_compute; repeat (first [left; reflexivity | right]).
   - vm_compute; reflexivity.
-  - split.
+  - eexists. split; [vm_compute; reflexivity|]. split.
     + intros a Ha v n Hv Hn. vm_compute in Ha.
       repeat (destruct Ha as [<-|Ha]; [try discriminate; inversion Hv; subst; vm_compute in Hn; inversion Hn; subst; vm_compute; reflexivity|]).
       destruct Ha.
